@@ -684,6 +684,7 @@ func finishReplay(rf *ReplayFile, res *Result, media []*Medium) {
 			fmt.Printf("log %s[%d] id=%s %s gen=%d step=%d ik=%q data=%s\n", m.Name, i, r.ID, r.Type, r.Gen, r.Step, r.IK, r.Data)
 		}
 	}
+	fmt.Printf("counters: %v\n", res.Counters)
 	reproduced := false
 	for _, v := range res.Violations {
 		fmt.Printf("violation %s: %s\n", v.Sig(), v.Detail)
